@@ -46,7 +46,7 @@ set_option maxRecDepth 100000 in
     7 entries listed, media sequence 1, next id 8; two streams -/
 example : (demo 30).streams.length = 2 ∧ ((demo 30).stream 0).segments.length = 7 ∧
     ((demo 30).stream 0).deleteCount = 1 ∧ ((demo 30).stream 0).nextSegmentID = 8 ∧
-    ((demo 30).stream 1).segments.length = 7 := by decide
+    ((demo 30).stream 1).segments.length = 7 := by decide +kernel
 
 /-! ## c04_inv -/
 
@@ -101,7 +101,7 @@ theorem c04_inv {cfg : Cfg} {st0 : State} (h : start cfg = .ok st0) (ops : List 
     simpa using this
 
 set_option maxRecDepth 100000 in
-example : start llCfg = .ok demoStart ∧ 0 < (run demoStart (demoOps 30)).streams.length := ⟨rfl, by decide⟩
+example : start llCfg = .ok demoStart ∧ 0 < (run demoStart (demoOps 30)).streams.length := ⟨rfl, by decide +kernel⟩
 
 
 /-! ## c04_uri_is_msn -/
@@ -201,7 +201,7 @@ set_option maxRecDepth 100000 in
 /-- the hypotheses are satisfiable, and both a rotation (`k = 1`: write of key frame 50) and a plain write occur -/
 example : singleOp (run demoStart (demoOps 50)) (vOp 50) ∧ 0 < (run demoStart (demoOps 50)).streams.length ∧
     (mediaPlaylist (run demoStart (demoOps 50)) 0 false).mediaSeq = 1 ∧
-    (mediaPlaylist (write (run demoStart (demoOps 50)) (vOp 50)).1 0 false).mediaSeq = 2 := by decide
+    (mediaPlaylist (write (run demoStart (demoOps 50)) (vOp 50)).1 0 false).mediaSeq = 2 := by decide +kernel
 
 /-- The same for every single sample that enters `fmp4WriteSample` (a multi-AU audio call of an audio-only
 muxer is a sequence of such steps). -/
@@ -278,7 +278,7 @@ example : (mediaPlaylist (run demoStart (demoOps 30)) 0 false).mediaSeq = 1 ∧
     (mediaPlaylist (run (run demoStart (demoOps 30)) ((demoOps 130).drop 60)) 0 false).mediaSeq = 5 ∧
     ((mediaPlaylist (run demoStart (demoOps 30)) 0 false).segments[7 - 1]?).map (·.key) = some (some (.seg 0 7)) ∧
     ((mediaPlaylist (run (run demoStart (demoOps 30)) ((demoOps 130).drop 60)) 0 false).segments[7 - 5]?).map (·.key) =
-      some (some (.seg 0 7)) := by decide
+      some (some (.seg 0 7)) := by decide +kernel
 
 
 /-! ## c04_parts_window, c04_part_numbers -/
@@ -361,7 +361,7 @@ theorem c04_part_numbers {cfg : Cfg} {st0 : State} (h : start cfg = .ok st0) (op
 
 set_option maxRecDepth 100000 in
 example : (run demoStart (demoOps 60)).cfg.variant = .ll ∧
-    (mediaPlaylist (run demoStart (demoOps 60)) 0 false).hint = some (.part 0 11) := by decide
+    (mediaPlaylist (run demoStart (demoOps 60)) 0 false).hint = some (.part 0 11) := by decide +kernel
 
 /-! ## c04_streams_agree -/
 
@@ -440,6 +440,6 @@ theorem c04_streams_agree {cfg : Cfg} {st0 : State} (h : start cfg = .ok st0) (o
 
 set_option maxRecDepth 100000 in
 example : 0 < (run demoStart (demoOps 60)).streams.length ∧ 1 < (run demoStart (demoOps 60)).streams.length ∧
-    ((run demoStart (demoOps 60)).stream 1).deleteCount = 2 := by decide
+    ((run demoStart (demoOps 60)).stream 1).deleteCount = 2 := by decide +kernel
 
 end Hls.Props.C04
